@@ -2,7 +2,8 @@
 //! Trace_C16.tla (over Backing.tla) judges.
 //!
 //!   c16 --mode random --n SESSIONS [--writes MAX] [--stream K] --out FILE     (VERIF_SEED)
-//!   c16 --mode gen --in HISTORIES.ndjson --out FILE        (TLC-generated small histories, MC_Backing)
+//!   c16 --mode gen --in HISTORIES.ndjson [--placements rotate|all] [--endian both|alternate] --out FILE
+//!                                                          (TLC-generated small histories, MC_Backing)
 //!   c16 --mode replay --in SESSION.ndjson --out FILE       (re-drive the inputs of a session)
 //!
 //! A session is a list of *input* events; `drive` executes it against the real memory and emits the
@@ -282,10 +283,16 @@ fn main() {
         }
         "gen" => {
             let placements = fv::arg_str("placements", "rotate");
+            let endian_mode = fv::arg_str("endian", "both");
             for (i, hist) in read_ndjson(&fv::arg_str("in", "")).iter().enumerate() {
                 let bases: Vec<u64> = if placements == "all" { vec![0, 1, 2] } else { vec![i as u64 % 3] };
+                // endianness: both (default), or alternating with the history index
+                let endians: Vec<&str> = match endian_mode.as_str() {
+                    "alternate" => vec![if (i / 3) % 2 == 0 { "little" } else { "big" }],
+                    _ => vec!["little", "big"],
+                };
                 for base in bases {
-                    for endian in ["little", "big"] {
+                    for endian in endians.iter().cloned() {
                         if let Some(s) = gen_session(hist, base, endian) {
                             run_session(&s, &mut out, &mut park);
                         }
